@@ -4,6 +4,8 @@ Explicit-state BFS to closure over the product (implementation registers,
 reference list). Every transition elaborates the real queue, replays the
 history and applies one letter (enq offer, msg, deq offer).
 """
+import itertools
+
 from pymtl3 import Component, update_once, U
 
 from vt import fifo
@@ -263,6 +265,84 @@ def explore(key, cap, tname, msgs, acc, max_states):
   return res
 
 
+# ------------------------------------------------------------------ CL <-> RTL adapter chains (stdlib/ifcs/send_recv_ifcs.py)
+
+CHAIN_QUEUES = ("NormalQueue1RTL", "PipeQueue1RTL", "BypassQueue1RTL", "BypassQueue2RTL")
+
+
+def build_chain(qname):
+  """CL producer -> [RecvCL2SendRTL, inserted by connect()] -> en/rdy RTL queue -> [RecvRTL2SendCL, inserted by connect()] -> CL consumer"""
+  import pymtl3.stdlib.queues.enrdy_queues as EQ
+  from pymtl3 import Component, CallerIfcCL, Bits2, b2, update_once, non_blocking, connect, DefaultPassGroup
+
+  class Src(Component):
+    def construct(s):
+      s.send = CallerIfcCL()
+      s.want = 0; s.msg = 0; s.acc = []
+
+      @update_once
+      def up_src():
+        if s.want and s.send.rdy():
+          s.send(b2(s.msg)); s.acc.append(s.msg)
+
+  class Snk(Component):
+    def construct(s):
+      s.ok = 0; s.got = []
+
+    @non_blocking(lambda s: s.ok)
+    def recv(s, msg):
+      s.got.append(int(msg))
+
+  class Chain(Component):
+    def construct(s):
+      s.src = Src(); s.q = getattr(EQ, qname)(Bits2); s.snk = Snk()
+      connect(s.src.send, s.q.enq)
+      connect(s.q.deq, s.snk.recv)
+
+  t = Chain(); t.elaborate(); t.apply(DefaultPassGroup()); t.sim_reset()
+  names = {type(c).__name__ for c in t.get_all_components()}
+  if not {"RecvCL2SendRTL", "RecvRTL2SendCL"} <= names: raise MachineryError(f"adapters were not inserted: {sorted(names)}")
+  return t
+
+
+def run_chain(qname, seq):
+  """-> failures; the oracle only uses what the property states for every queue-like conduit: delivered == accepted, in order, none
+  lost, duplicated or invented, bounded buffering; after the consumer has been ready for a while everything accepted is delivered"""
+  t = build_chain(qname)
+  cap = 2 + (2 if qname.endswith("2RTL") else 1)            # two 1-entry adapters + the queue
+  fails = []
+  def step(w, m, ok, i):
+    t.src.want, t.src.msg, t.snk.ok = w, m, ok
+    try: t.sim_tick()
+    except Exception as ex:
+      fails.append(("sim-raised", "no exception", f"{type(ex).__name__}: {str(ex)[:100]}", f"step {i}")); return False
+    acc_, got = list(t.src.acc), list(t.snk.got)
+    if got != acc_[:len(got)]:
+      fails.append(("order-or-invented", acc_, got, f"delivered is not a prefix of accepted after step {i}")); return False
+    if len(acc_) - len(got) > cap:
+      fails.append(("more-buffered-than-capacity", f"<= {cap}", len(acc_) - len(got), f"step {i}")); return False
+    return True
+  for i, (w, m, ok) in enumerate(seq):
+    if not step(w, m, ok, i): return fails
+  for k in range(cap + 3):
+    if not step(0, 0, 1, f"drain{k}"): return fails
+  if t.snk.got != t.src.acc: fails.append(("lost", list(t.src.acc), list(t.snk.got), f"after {cap + 3} cycles with the consumer ready and nothing offered"))
+  return fails
+
+
+def explore_chain(qname, tier, acc):
+  L = 4 if tier == "quick" else 6
+  letters = [(0, 0, 0), (0, 0, 1)] + [(1, m, ok) for m in (1, 2) for ok in (0, 1)]
+  for k in range(1, L + 1):
+    for seq in itertools.product(letters, repeat=k):
+      fails = run_chain(qname, seq)
+      acc.count("executions"); acc.count("chain_executions"); acc.count("transitions", len(seq))
+      for f in fails:
+        acc.violation(f"chain:{qname}:{f[0]}", dict(kind="chain", queue=qname, seq=[list(x) for x in seq]), f[1], f[2], f[3])
+      if fails: return
+  acc.add("configs", ("chain", qname, "Bits2"))
+
+
 def shards(tier):
   S = []
   for key, _, _, fam, kind, caps, _ in CATALOG:
@@ -280,17 +360,22 @@ def shards(tier):
       S.append((key, caps[0] if tier == "quick" else min(caps[-1], 2), "struct", (1, 2, 3)))
   # largest first for load balance
   S.sort(key=lambda s: -(len(s[3]) + 1) ** s[1])
-  return S
+  return S + [("chain", q) for q in CHAIN_QUEUES]
 
 
 def run_shard(shard, tier, seed):
   acc = Acc()
+  if shard[0] == "chain":
+    explore_chain(shard[1], tier, acc)
+    return acc
   key, cap, tname, msgs = shard
   explore(key, cap, tname, tuple(msgs), acc, max_states=60000)
   return acc
 
 
 def replay(case):
+  if case.get("kind") == "chain":
+    return [(f"chain:{case['queue']}:{f[0]}", f[1], f[2], f[3]) for f in run_chain(case["queue"], [tuple(x) for x in case["seq"]])]
   im = Impl(case["key"], case["cap"], case["T"])
   for l in case["hist"]: im.apply(tuple(l))
   obs, spec = im.apply(tuple(case["letter"]))
